@@ -910,11 +910,12 @@ func (s *SSEServer) processRequestAsync(ctx context.Context, request *JSONRPCReq
 			return
 		}
 		event := formatSSEEvent("message", fullResponseData)
+		// An answer is never dropped: wait for room in the queue (or for the session to end).
 		select {
 		case session.eventQueue <- event:
 			// Successfully queued
-		default:
-			s.logger.Errorf("Failed to queue error response: event queue full for session %s", session.sessionID)
+		case <-session.done:
+			s.logger.Debugf("Session closed, cannot send error response: %s", session.sessionID)
 		}
 		return
 	}
@@ -1077,13 +1078,12 @@ func (s *SSEServer) handleRequestError(err error, requestID interface{}, session
 	responseData, _ := json.Marshal(errorResponse)
 	event := formatSSEEvent("message", responseData)
 
+	// An answer is never dropped: wait for room in the queue (or for the session to end).
 	select {
 	case session.eventQueue <- event:
 		// Error response queued successfully.
 	case <-session.done:
 		s.logger.Debugf("Session closed, cannot send error response: %s", session.sessionID)
-	default:
-		s.logger.Errorf("Failed to queue error response: event queue full for session %s", session.sessionID)
 	}
 }
 
@@ -1107,13 +1107,12 @@ func (s *SSEServer) sendSuccessResponse(requestID interface{}, result interface{
 	event := formatSSEEvent("message", fullResponseData)
 
 	// Send to SSE connection.
+	// An answer is never dropped: wait for room in the queue (or for the session to end).
 	select {
 	case session.eventQueue <- event:
 		// Response queued successfully.
 	case <-session.done:
 		s.logger.Debugf("Session closed, cannot send response: %s", session.sessionID)
-	default:
-		s.logger.Errorf("Failed to queue response: event queue full for session %s", session.sessionID)
 	}
 }
 
